@@ -8,6 +8,7 @@ import (
 	"strings"
 
 	"verif/core"
+	"verif/gen"
 	"verif/model"
 	"verif/sess"
 	"verif/tape"
@@ -266,10 +267,38 @@ var c19Sites = []c19Site{
 	{"zip-member", func(e func(string) string, t string) ([]string, string) {
 		return []string{"ge = (c) -> {\nyield 1\nz = " + e("c") + "\nyield 2\n}", "uz = (c) -> {\nw = 0\nfor a, b <- fromto(0, 5), ge(c) {\nw = w + a + b\n}\nw\n}"}, "uz(" + t + ")"
 	}, true},
+	// the same sites after other loops of the same statement have come and gone: the failing
+	// generator runs in a recycled context, on a stack that has held other frames
+	{"generator-after-loop", func(e func(string) string, t string) ([]string, string) {
+		return []string{"ge = (c) -> {\nyield 1\nz = " + e("c") + "\nyield 2\n}", "us = (c, w) -> {\nfor q <- fromto(0, 2) {\nw = w + q\n}\nfor e <- ge(c) {\nw = w + e\n}\nw\n}"}, "us(" + t + ", 10)"
+	}, true},
+	{"generator-after-composed-loops", func(e func(string) string, t string) ([]string, string) {
+		return []string{"ge = (c) -> {\nyield 1\nz = " + e("c") + "\nyield 2\n}", "gg = (c) -> for e <- ge(c) yield e + 1",
+			"uu = (c) -> {\nw = 0\nfor a <- map((x) -> x + 1, () -> fromto(0, 3)) {\nfor b <- fromto(0, 2) {\nw = w + a + b\n}\n}\nfor e <- gg(c) {\nw = w + e\n}\nw\n}", "outer = (c) -> uu(c)"}, "outer(" + t + ")"
+	}, true},
+	{"generator-after-abandoned-loop", func(e func(string) string, t string) ([]string, string) {
+		return []string{"ge = (c) -> {\nyield 1\nz = " + e("c") + "\nyield 2\n}", "first = (n) -> {\nfor a <- map((x) -> x * 2, () -> fromto(0, n)) {\nif a >= 2 {\nreturn a\n}\n}\n0\n}",
+			"ua = (c, w) -> {\nw = w + first(5)\nfor e <- ge(c) {\nw = w + e\n}\nw\n}"}, "ua(" + t + ", 10)"
+	}, true},
+	{"zip-member-after-zip", func(e func(string) string, t string) ([]string, string) {
+		return []string{"ge = (c) -> {\nyield 1\nz = " + e("c") + "\nyield 2\n}", "uz = (c) -> {\nw = 0\nfor a, b <- fromto(0, 2), elems(\"xyz\") {\nw = w + a\n}\nfor a, b <- fromto(0, 5), ge(c) {\nw = w + a + b\n}\nw\n}"}, "uz(" + t + ")"
+	}, true},
+	{"loop-body-after-deep-recursion-and-loop", func(e func(string) string, t string) ([]string, string) {
+		return []string{"dp = (n) -> if n <= 0 {\n0\n} else {\n1 + dp(n - 1)\n}", "lb = (c, m) -> {\ns = dp(150)\nfor q <- fromto(0, 3) {\ns = s + q\n}\nfor e <- fromto(0, 4) {\nif e == m {\ns = s + " + e("c") + "\n}\n}\ns\n}"}, "lb(" + t + ", 2)"
+	}, false},
+	{"generator-in-wide-frame-after-loop", func(e func(string) string, t string) ([]string, string) {
+		pad := ""
+		for i := 0; i < 140; i++ {
+			pad += fmt.Sprintf("%s = %d\n", padName(i), i)
+		}
+		return []string{"ge = (c) -> {\nyield 1\nz = " + e("c") + "\nyield 2\n}", "uw = (c, w) -> {\n" + pad + "for q <- fromto(0, 2) {\nw = w + q\n}\nfor e <- ge(c) {\nw = w + e\n}\nw\n}"}, "uw(" + t + ", 10)"
+	}, true},
 	{"top-level-loop-generator", func(e func(string) string, t string) ([]string, string) {
 		return []string{"ge = (c) -> {\nyield 1\nz = " + e("c") + "\nyield 2\n}"}, "for tv <- ge(" + t + ") {\ntw = tv\n}"
 	}, true},
 }
+
+func padName(i int) string { return gen.PadName(i) }
 
 func (C19) Cases(t core.Tier) int     { return len(c19Classes) * len(c19Sites) * 2 * 2 }
 func (C19) Exhaustive(core.Tier) bool { return true }
@@ -435,6 +464,17 @@ func (C19) Run(tp *tape.Tape) core.Result {
 		def, call := g.DeepCall(stmt, []int{0, 1, 3, 17}[k])
 		defs = append(defs, def)
 		stmt = call
+	}
+	// history inside the same statement: loops that have come and gone (recycled contexts), an
+	// abandoned loop, a deep recursion (grown stack), before the failing call
+	if k := tp.Draw(5); k > 0 && !strings.HasPrefix(stmt, "for ") {
+		defs = append(defs,
+			"warm = (n) -> {\ns = 0\nfor a <- map((x) -> x + 1, () -> fromto(0, n)) {\nfor b <- fromto(0, 2) {\ns = s + a + b\n}\n}\ns\n}",
+			"quit = (n) -> {\nfor a <- filter((x) -> x % 2 == 0, () -> fromto(0, n)) {\nif a >= 2 {\nreturn a\n}\n}\n0\n}")
+		pre := []string{"warm(2)", "quit(6)", "deep(120)", "warm(3) + quit(4)"}[k-1]
+		defs = append(defs, "wz = (v) -> {\nv = v + "+pre+"\n"+stmt+"\n}")
+		stmt = fmt.Sprintf("wz(%d)", tp.Draw(9))
+		r.Inc("F8.failing_call_after_loops_of_the_same_statement", 1)
 	}
 	runC19(defs, stmt, "", sw.Repl, &r, h)
 	if strings.HasPrefix(r.Discard, "a definition did not evaluate") {
